@@ -48,8 +48,10 @@ def explore(ctx, proof, mine, builders, rule, assumptions, nontrivial=None, extr
         for (label, fn) in builders:
             try:
                 L, first, nblocks, meta, *rest = fn(ctx)
-            except Exception as e:       # generator bug: make it visible
+            except Exception as e:       # generator bug: a check whose generator does not run explores nothing - that is a failure of the check, not a note
                 ctx.notes.append("generator %s raised %r" % (label, e))
+                if not any(f["what"].startswith("generator %s raised" % label) for f in ctx.failures):
+                    ctx.fail("corr", "generator %s raised %r: the histories it should have produced were not explored" % (label, e), {"generator": label})
                 continue
             built.append((label, L, first, nblocks, meta, rest[0] if rest else {}))
         # the histories are independent: run them on all cores (generation above stays sequential, so a seed replays exactly)
